@@ -232,10 +232,26 @@ def plan(tier, seed):
     na = len(alias_pairs())
     for lo in range(0, na, 60):
         shards.append(("A", lo, min(na, lo + 60)))
+    shards.append(("P",))
     nf = len(fake_root_compounds())
     for lo in range(0, nf, 100):
         shards.append(("F", lo, min(nf, lo + 100)))
     return shards
+
+
+# documents that are not containers can only be queried usefully through the fake root; they are given as JSON text
+# (a str argument is JSON text by the API), including strings whose content looks like JSON text
+PRIM_TEXTS = ['"[2]"', '"{"', '"a"', '2', 'null', '"null"', '"2"', '"{\\"a\\": 2}"', 'true', '""', '3.5', '"ab"']
+
+
+def prim_constructs():
+    return [fr(), fr(C(I(0))), fr(C(W)), fr(C(I(0), I(-1))), fr(D(W)),
+            fr(C(F(("cmp", "==", qa(), L("[2]"))))), fr(C(F(("cmp", "==", qa(), L(2))))), fr(C(F(("test", Q())))),
+            fr(C(F(("cmp", "==", qr(C(I(0))), L(2))))), fr(C(F(("cmp", "==", qr(C(N("a"))), L(2))))),
+            fr(C(F(("cmp", "==", qr(), qa())))), fr(C(F(("cmp", ">", call("length", qa()), L(1))))),
+            fr(C(F(("cmp", "==", call("length", qr()), L(3))))), fr(C(F(("test", at(C(I(0))))))),
+            fr(C(F(("cmp", "==", call("count", qr(C(W))), L(1))))), fr(C(F(("cmp", "=~", qa(), ("re", ".2.", ""))))),
+            fr(C(F(("cmp", "in", L("2"), qr())))), fr(C(F(("cmp", "==", qa(), L(None)))))]
 
 
 FR_SIMPLE = ["^[?@.k == 2].k", "$.k", "^[0].s", "$.l[*]", "^[?@.o].l[*]", "$.o.*"]
@@ -262,12 +278,44 @@ def run_shard(shard, acc):
                 texts = list(spell.spellings(spell.query(q, o), 1, True, blanks=spell.BLANKS))
             for text in texts:
                 _eval(tag, q, text, acc)
+    elif shard[0] == "P":
+        o = spell.Opts(full_strings=False)
+        for q in prim_constructs():
+            for t in PRIM_TEXTS:
+                _prim(q, spell.text(q, o), t, acc)
     elif shard[0] == "F":
         for parts in fake_root_compounds()[shard[1]:shard[2]]:
             _fake_compound(parts, acc)
     else:
         for tag, alias, std in alias_pairs()[shard[1]:shard[2]]:
             _alias(tag, alias, std, acc)
+
+
+def _prim(q, text, t, acc, record=True):
+    import io
+    import json
+
+    import jsonpath
+
+    exp = rpath.values(q, json.loads(t))
+    bad = None
+    try:
+        p = jsonpath.compile(text)
+        for name, fn in (("findall(text)", lambda: p.findall(t)), ("env.findall(text)", lambda: jsonpath.findall(text, t)),
+                         ("finditer(StringIO)", lambda: [m.obj for m in p.finditer(io.StringIO(t))])):
+            got = fn()
+            if not jeq_list(got, exp):
+                bad = ("primitive-document." + name, got)
+                break
+    except Exception as e:  # noqa: BLE001
+        bad = ("exception", "%s: %s" % (type(e).__name__, e))
+    if record:
+        acc.case("P", (text, t), outcome=tuple(ckey(v) for v in exp), nontrivial=bool(exp))
+        acc.count("P.%s" % ("some" if exp else "none"))
+        if acc.evals % 40 == 1:
+            acc.sample("P", {"text": text, "doc_text": t, "expected": exp})
+    if bad:
+        acc.violation("P", bad[0], {"q": q, "text": text, "doc_text": t}, expected=exp, observed=bad[1])
 
 
 def _fake_compound(parts, acc, record=True):
@@ -377,12 +425,17 @@ def REQUIRE(tier):
     for t in ("and/or/not", "<>", "literal", "bare-names", "rootless", "undefined"):
         req["A.%s.some" % t] = 1
     req["F.some"] = 100
+    req["P.some"] = 30
+    req["P.none"] = 30
     return req
 
 
 def check_case(sub, case, acc):
     if sub == "F":
         _fake_compound(tuple(case["parts"]), acc, record=False)
+        return
+    if sub == "P":
+        _prim(tup(case["q"]), case["text"], case["doc_text"], acc, record=False)
         return
     if sub == "X":
         q = tup(case["q"])
@@ -459,4 +512,6 @@ def signature(sub, case, v):
         return "C13.X.%s.%s.%s.%s" % (v["kind"], case["tag"], q[1], shape[:80])
     if sub == "F":
         return "C13.F.%s.ops(%s)" % (v["kind"], "".join(case["parts"][1::2]))
+    if sub == "P":
+        return "C13.P.%s.%s" % (v["kind"], case["text"])
     return "C13.A.%s.%s" % (v["kind"], case["tag"])
